@@ -104,6 +104,10 @@ func (x *ctx) appendOp(st *state, args []val, c *ssa.CallCommon) val {
 // ---------------------------------------------------------------- invoke
 
 func (x *ctx) invoke(st *state, fr *frame, recv val, m *types.Func, args []val, recvT types.Type, rt types.Type) []outcome {
+	if m.Name() == "AsPointer" && len(args) == 0 {
+		// AsPointer is the identity on references (unsafe.Pointer casts are the identity)
+		return x.ret1(st, scalar(x.asTerm(recv, recvT)))
+	}
 	if con := x.w.ifaceContractOf(m); con != nil {
 		if x.nodeT != nil && x.isNodeIface(recvT) {
 			// conformance mode: calls on the concrete type resolve statically
@@ -111,18 +115,26 @@ func (x *ctx) invoke(st *state, fr *frame, recv val, m *types.Func, args []val, 
 		return x.contractCall(st, fr, con, nil, append([]val{recv}, args...), rt)
 	}
 	// interfaces without contract: user-callback rule
-	return x.userCallback(st, fr, "invoke:"+m.FullName(), rt)
+	return x.userCallback(st, fr, "invoke:"+m.FullName(), m.Name(), rt)
 }
 
 func (x *ctx) invokeModKeys(c *ssa.CallCommon) ([]string, bool) { return nil, false }
 
 // userCallback: arbitrary result, heap unchanged, may panic (when the contract asks for panic paths).
-func (x *ctx) userCallback(st *state, fr *frame, what string, rt types.Type) []outcome {
+func (x *ctx) userCallback(st *state, fr *frame, what, short string, rt types.Type) []outcome {
 	x.assumed["A-callbacks: "+what+" returns an arbitrary result, does not re-enter the cache"] = true
 	var ret val
 	if rt != nil {
 		if tup, ok := rt.(*types.Tuple); !ok || tup.Len() > 0 {
-			ret = x.freshVal("cbres", rt)
+			ret = x.freshVal("cbres_"+short, rt)
+		}
+	}
+	if x.spec == 0 && short != "" {
+		// ghost log of user-callback invocations: number of calls and last result
+		cnt := x.ghostGet(st, "ghost_calls_"+short, nil, bvSort(64), nil)
+		x.ghostWrite(st, "ghost_calls_"+short, nil, x.binop(token.ADD, cnt, mkbv(1, 64), types.Typ[types.Int]))
+		if ret.t.s != "" {
+			x.ghostWrite(st, "ghost_ret_"+short, nil, ret.t)
 		}
 	}
 	outs := []outcome{{st: st, ret: ret}}
@@ -159,7 +171,14 @@ func (x *ctx) unknownCall(st *state, fr *frame, fnv val, args []val, c *ssa.Call
 			return outs
 		}
 	}
-	return x.userCallback(st, fr, what, rt)
+	short := what
+	if j := strings.LastIndex(short, "."); j >= 0 {
+		short = short[j+1:]
+	}
+	if strings.Contains(short, " ") {
+		short = short[strings.LastIndex(short, " ")+1:]
+	}
+	return x.userCallback(st, fr, what, short, rt)
 }
 
 // ---------------------------------------------------------------- external functions
